@@ -216,6 +216,9 @@ static size_t wa_num_predecessors(struct wa_op *op) { ALIVE("num_predecessors");
 static bool opstates_has(struct wa_op *op, size_t i) { ALIVE("op_states"); VX_ASSERT(i < op->num_predecessors, "op_states indexed within bounds"); return true; }
 static size_t opstates_deref(struct wa_op *op, size_t i) { ALIVE("op_states"); VX_ASSERT(i < op->num_predecessors, "op_states indexed within bounds"); return i; }
 static size_t g_np;   /* ghost copy of num_predecessors */
+static long g_base_starts;
+static void wa_base_start(struct wa_op *o) { if (g_base_starts < 3) g_base_starts++; }
+static void wa_child_start(struct wa_op *o) { if (g_child_starts < 3) g_child_starts++; }
 static void child_start(size_t i)
 {
   if (i == g_victim && g_child_starts_victim < 3) g_child_starts_victim++;
